@@ -48,7 +48,7 @@ Verdict(r) ==
     [] r.k = "m3" -> LET e == Murmur3TokenAscii(r.key) IN V(r.out = e /\ r.out2 = e, e)
     [] r.k = "rnd" -> LET e == RandomTokenAscii(r.md5) IN V(r.out = e /\ r.out2 = e, e)
     [] r.k = "ord" -> LET e == BytesLt(r.a, r.b) IN D(V(r.less = e, B(e)), r.sa = r.a, "orderedToken.String() is not the key")
-    [] r.k = "rk" -> LET e == RoutingKey(r.vals, r.idx) IN V(r.err = "" /\ r.out = e /\ r.out2 = e, e)
+    [] r.k = "rk" -> LET e == RoutingKeyOf(r.vals, r.idx) IN V(r.err = "" /\ r.out = e /\ r.out2 = e, e)
     [] r.k = "rkseq" -> LET e == SeqExpected(r.obj, r.steps, r.idx) IN V(r.err = "" /\ r.outs = e /\ r.outs2 = e, e)
     [] r.k = "cmp" -> LET e == DecLt(r.a, r.b) IN
                       D(V(IsCanonDec(r.a) /\ IsCanonDec(r.b) => r.less = e, B(e)), IsCanonDec(r.a) => r.ra = r.a,
